@@ -63,6 +63,19 @@ def cases(tier, rng):
             ops += [build(q, qs[q])] + ops_for(rng, q)
         ops += [build(0, qs[0])] + ops_for(rng, 0, "asks")
         out.append((hist(rules, ops), "sequential"))
+    # process-wide state that only grows with USE: a query that fetches a fact of 17-20 distinct variables, then fresh queries
+    # over clauses that reuse those names; and a query with a cut re-asked 25 000 times after exhaustion, then a fresh query
+    for nv in (16, 17, 20):
+        vs = [var(0, "$%s" % chr(65 + k)) for k in range(nv)]
+        rs = [rule(cplx("wide", lst(vs), vs[0], vs[-1])), rule(cplx("check", vs[0]), call(cplx("wide", lst([integer(k) for k in range(nv)]), vs[0], vs[1]))),
+              rule(cplx("num", integer(1))), rule(cplx("num", integer(2))), rule(cplx("nxt", integer(1), integer(3))), rule(cplx("nxt", integer(2), integer(4))),
+              rule(cplx("two", vs[0], vs[1]), AND(call(cplx("num", vs[0])), call(cplx("nxt", vs[0], vs[1]))))]
+        two = [atom("two"), var(0, "$X"), var(0, "$Y")]
+        out.append((hist(rs, [build(0, two), ask(0), ask(0), ask(0), build(1, [atom("check"), var(0, "$Z")]), ask(1), ask(1), build(0, two), ask(0), ask(0), ask(0), "(solve-all 0)"]), "sequential"))
+    cutrs = [rule(cplx("n", integer(1))), rule(cplx("n", integer(2))), rule(cplx("first", var(0, "$X")), AND(call(cplx("n", var(0, "$X"))), bip0("!"))),
+             rule(cplx("pair", var(0, "$X"), var(0, "$Y")), AND(call(cplx("first", var(0, "$X"))), call(cplx("n", var(0, "$Y")))))]
+    for reasks in ([25000] if tier == "quick" else [25000, 70000]):
+        out.append((hist(cutrs, [build(0, [atom("first"), var(0, "$X")])] + [ask(0)] * reasks + [build(1, [atom("pair"), var(0, "$X"), var(0, "$Y")]), "(solve-all 1)", build(1, [atom("pair"), var(0, "$X"), var(0, "$Y")]), ask(1), ask(1), ask(1)]), "sequential"))
     # queries built from TEXT (parse_query), zero-argument queries among them, after timed-out / abandoned / finished ones
     nt = 150 if tier == "quick" else 3000
     for _ in range(nt):
